@@ -143,7 +143,11 @@ def build_co2(c):
     if "series" in c:
         kw["co2_data"] = pd.DataFrame({"year": [y for y, _ in c["series"]],
                                        "ppm": [p for _, p in c["series"]]})
-    return CO2(**kw)
+    co = CO2(**kw)
+    if c.get("edit_default"):
+        # a user scenario made by editing, in place, the table of the user's own default-built CO2 object
+        co.co2_data.loc[:, "ppm"] = co.co2_data["ppm"] + float(c["edit_default"])
+    return co
 
 
 def build_objects(scen):
@@ -223,6 +227,13 @@ def random_irr(rng, method, start, end):
         k = int(rng.integers(0, 25))
         idx = sorted(set(rng.integers(0, len(ds), k).tolist()))
         irr["schedule"] = [[ds[i].strftime("%Y-%m-%d"), float(rng.choice([0, 5, 12.5, 25, 40, 60]))] for i in idx]
+        if rng.random() < 0.6:
+            # a schedule kept for a longer period than the one simulated: events before the start and after the end
+            for off in sorted(set(rng.integers(1, 200, 4).tolist())):
+                irr["schedule"].insert(0, [(ds[0] - pd.Timedelta(days=int(off))).strftime("%Y-%m-%d"), float(rng.choice([15, 30]))])
+            for off in sorted(set(rng.integers(1, 200, 3).tolist())):
+                irr["schedule"].append([(ds[-1] + pd.Timedelta(days=int(off))).strftime("%Y-%m-%d"), float(rng.choice([15, 30]))])
+            irr["schedule"].sort(key=lambda e: e[0])
     if method == 4:
         irr["NetIrrSMT"] = float(rng.choice([30, 50, 70, 80, 100]))
     if method == 5:
@@ -320,7 +331,9 @@ def gen_scenario(rng, idx, strata=None):
     else:
         lays = copy.deepcopy(st["layers"] if "layers" in st else CUSTOM_LAYERS[rng.integers(len(CUSTOM_LAYERS))])
         if st.get("restrictive") or rng.random() < 0.3:
-            lays[-1][5] = float(rng.choice([40, 70]))
+            # a layer that restricts root penetration: any layer, preferably one with another layer below it
+            li = int(rng.integers(0, max(1, len(lays) - 1))) if rng.random() < 0.7 else len(lays) - 1
+            lays[li][5] = float(rng.choice([40, 50, 70]))
         soil = {"type": "custom", "layers": lays, "dz": DZ_CHOICES[1 + rng.integers(len(DZ_CHOICES) - 1)]}
         nlayer = len(lays)
         soil["kwargs"] = {"cn": float(rng.choice([46, 61, 72, 77])), "rew": float(rng.choice([5, 9, 12]))}
